@@ -52,6 +52,7 @@ type driver struct {
 	readFaults      []fault   // planned read faults not yet observed
 	status          status
 	skipFinalIsOpen bool
+	blockW          chan struct{}
 	halfClosed      bool
 	fedMark         int
 	noSettle        bool
@@ -117,6 +118,11 @@ func (d *driver) release() {
 	// Wake the read loop (it takes a stale token with it), let a stuck or a
 	// fresh Close() finish - that also ends the monitor runner - and only
 	// then make sure the stream is closed.
+	if d.blockW != nil {
+		d.st.SetBlockWrite(nil)
+		close(d.blockW)
+		d.blockW = nil
+	}
 	d.st.FeedEOF()
 	tr, st := d.tr, d.st
 	go func() {
@@ -214,6 +220,10 @@ func (d *driver) deadlockCrit(opName string, monitorSide bool) func(p *lockPictu
 		if p.stuckSend == nil {
 			for i := range p.lockWaiters {
 				if g := &p.lockWaiters[i]; mine(g) && p.selfDeadlock(g) {
+					if p.hasStalledWriter() {
+						return "C15:deadlock:" + opName + "-behind-stalled-write:" + d.ctx(),
+							opName + " never returns: it is parked on the transport's mutex while a send of this transport is parked in the stream's Write (the peer has stopped reading) and every other goroutine of the transport is parked lock-free: the mutex is held across the stalled write", true
+					}
 					return "C15:deadlock:" + opName + "-waits-for-mutex-nobody-releases:" + d.ctx(),
 						opName + " never returns: it is parked on the transport's mutex while every other goroutine of this transport is parked where it holds no lock (read loop in the stream's Read, monitor runner idle, requests waiting): the mutex was taken and is never released (self-deadlock or missing unlock)", true
 				}
@@ -520,6 +530,12 @@ func (d *driver) awaitCause(kind string, faultMark int) (causeVal, bool) {
 		return got
 	}
 	crit := func(p *lockPicture, _ []gblock) (string, string, bool) {
+		for i := range p.lockWaiters {
+			if g := &p.lockWaiters[i]; g.Reader && g.Closing && p.selfDeadlock(g) && p.hasStalledWriter() {
+				return "C15:deadlock:close-by-the-read-loop-behind-stalled-write:" + d.ctx(),
+					"the read loop's close() is parked on the transport's mutex while a send is parked in the stream's Write and everything else is parked lock-free: the mutex is held across the stalled write, the close cause is never published", true
+			}
+		}
 		if p.stuckSend != nil && !p.stuckRecv && p.noReceiver(d.scriptIdle()) {
 			who := "a call"
 			if p.stuckSend.Reader {
@@ -806,6 +822,10 @@ func (d *driver) monitorProtocol(cause error, exp expect) {
 			return
 		}
 		last = e.OpenCalls
+		if e.OpenAtCallback {
+			d.violate("C15:OnReopenFailed-while-open", fmt.Sprintf("OnReopenFailed (attempt %d) was called while the transport is open", i), nil)
+			return
+		}
 		if e.LateSampled {
 			d.h.run.Add("late_Closed_fetches", 1)
 			if !e.LateReady {
